@@ -68,3 +68,11 @@
 (declare-fun implementsRT (Int Int) Bool)   ; the interpreter type implements the host interface type (reflect type)
 (declare-fun rvAppendSpreadOp (Int Int) Int)   ; reflect.Append(s, vs...) with vs a []reflect.Value
 (declare-fun rvAppend1Op (Int Int) Int)        ; reflect.Append(s, v)
+(declare-fun rvMakeSliceOp (Int Int Int) Int)     ; reflect.MakeSlice(t, len, cap)
+(declare-fun rvMakeChanOp (Int Int) Int)          ; reflect.MakeChan(t, buffer)
+(declare-fun rvMakeMapOp (Int Int) Int)           ; reflect.MakeMapWithSize(t, n)
+(declare-fun rvMakeMap1Op (Int) Int)              ; reflect.MakeMap(t)
+(declare-fun rtChanDir (Int) Int)                 ; reflect.Type.ChanDir
+(declare-fun rtLen (Int) Int)                     ; reflect.Type.Len
+(declare-fun rtElem (Int) Int)                    ; reflect.Type.Elem
+(declare-fun rtKey (Int) Int)                     ; reflect.Type.Key
